@@ -454,8 +454,51 @@ func runExtract(c *Case, r *mon.Rec, fr specref.Framing, rng *rand.Rand) {
 				}
 				hb.Fields = append(hb.Fields[:at], append(modbus.Fields{f}, hb.Fields[at:]...)...)
 			}
+			// (hand-built lists may also carry a register-typed definition by mistake: whatever is reported for it, reading
+			// must not rearrange the caller's list, and a second extraction must say the same as the first)
+			if rng.Intn(3) == 0 {
+				f := rq.Fields[0]
+				f.Name, f.Type = "stray-register-field", modbus.FieldTypeUint16
+				at := rng.Intn(len(hb.Fields) + 1)
+				hb.Fields = append(hb.Fields[:at], append(modbus.Fields{f}, hb.Fields[at:]...)...)
+			}
+			before := append(modbus.Fields(nil), hb.Fields...)
 			var v2 []modbus.FieldValue
 			pn, txt := mon.Catch(func() { v2, _ = hb.ExtractFields(resp, true) })
+			if !pn {
+				var v3 []modbus.FieldValue
+				mon.Catch(func() { v3, _ = hb.ExtractFields(resp, true) })
+				same := len(v2) == len(v3)
+				for i := 0; same && i < len(v2); i++ {
+					same = v2[i].Field == v3[i].Field && v2[i].Value == v3[i].Value && (v2[i].Error == nil) == (v3[i].Error == nil)
+				}
+				for i := range before {
+					if i >= len(hb.Fields) || before[i] != hb.Fields[i] {
+						same = false
+					}
+				}
+				if !same {
+					r.Violate(c, "extraction-not-repeatable", mon.Attrs{"fn": "ExtractFields"}, fmt.Sprintf("hand-built request with %d fields: the second extraction from the same response differs from the first (%d vs %d values) or the request's field list changed", len(before), len(v2), len(v3)))
+				}
+				// the checks below are about coil fields only
+				kept := v2[:0:0]
+				for _, fv := range v2 {
+					if fv.Field.Name != "stray-register-field" {
+						kept = append(kept, fv)
+					}
+				}
+				if len(kept) != len(v2) {
+					n := 0
+					for _, f := range hb.Fields {
+						if f.Name != "stray-register-field" {
+							hb.Fields[n] = f
+							n++
+						}
+					}
+					hb.Fields = hb.Fields[:n]
+					v2 = kept
+				}
+			}
 			if pn {
 				r.Violate(c, "extract-panics", mon.Attrs{"fn": "ExtractFields", "hand_built": true}, txt)
 			}
